@@ -118,6 +118,42 @@ U16Str(d, c, o) ==
       \* error or "the rest of the packet"; both are allowed, leaving the packet is not
       ELSE {[ok |-> FALSE, cur |-> c, val |-> <<>>], [ok |-> TRUE, cur |-> Len(d), val |-> str]}
 
+\* Unreal 2 string (the decoder the Unreal 2 reader plugs into read_string): one length byte L;
+\*   L < 128 : L Latin-1 bytes follow, the count includes the terminator; the text is what precedes the first 00;
+\*   L >= 128: L - 128 UCS-2 units (UTF-16LE) follow, after an optional stray 01 that is not counted.
+\* Exactly 1 + L (resp. 1 [+ 1] + 2 (L - 128)) bytes are consumed whatever the text contains; not enough bytes: failure.
+\* The value is the text with colour escapes (1B and the three characters after it) and the control codes 01..1A
+\* removed and 00 trimmed at both ends (C06); Latin-1 bytes above 7F are not compared here (code page mapping): 65533.
+RECURSIVE StripCodes(_)
+StripCodes(s) == IF s = <<>> THEN <<>>
+                 ELSE IF s[1] = 27 THEN StripCodes(SubSeqFrom(s, 5, Len(s)))
+                 ELSE IF s[1] >= 1 /\ s[1] <= 26 THEN StripCodes(Tail(s))
+                 ELSE <<s[1]>> \o StripCodes(Tail(s))
+RECURSIVE TrimNul(_)
+TrimNul(s) == IF s = <<>> THEN <<>>
+              ELSE IF s[1] = 0 THEN TrimNul(Tail(s))
+              ELSE IF s[Len(s)] = 0 THEN TrimNul(SubSeqFrom(s, 1, Len(s) - 1))
+              ELSE s
+U2Str(d, c) ==
+  IF Rem(d, c) < 1 THEN [ok |-> FALSE, cur |-> c, val |-> <<>>]
+  ELSE LET L == d[c + 1] IN
+    IF L < 128
+    THEN IF Rem(d, c) < 1 + L THEN [ok |-> FALSE, cur |-> c, val |-> <<>>]
+         ELSE LET raw == SubSeqFrom(d, c + 2, c + 1 + L)
+                  Z   == {i \in 1 .. Len(raw) : raw[i] = 0}
+                  p   == IF Z = {} THEN Len(raw) + 1 ELSE CHOOSE i \in Z : \A j \in Z : i <= j
+                  txt == SubSeqFrom(raw, 1, p - 1)
+              IN  [ok |-> TRUE, cur |-> c + 1 + L,
+                   val |-> [i \in 1 .. Len(StripCodes(txt)) |-> IF StripCodes(txt)[i] > 127 THEN 65533 ELSE StripCodes(txt)[i]]]
+    ELSE LET n     == 2 * (L - 128)
+             stray == Rem(d, c) >= 2 /\ d[c + 2] = 1
+             st    == c + 1 + (IF stray THEN 1 ELSE 0)
+         IN  IF st + n > Len(d) THEN [ok |-> FALSE, cur |-> c, val |-> <<>>]
+             ELSE LET us == [i \in 1 .. (L - 128) |-> <<d[st + 2 * i], d[st + 2 * i - 1]>>]      \* <<high, low>> of a little-endian unit
+                  IN  IF ~Utf16Ok(us) THEN [ok |-> FALSE, cur |-> c, val |-> <<>>]
+                      ELSE [ok |-> TRUE, cur |-> st + n,
+                            val |-> TrimNul(StripCodes([i \in 1 .. Len(us) |-> us[i][1] * 256 + us[i][2]]))]
+
 Chunk(d, c, n) ==
   IF c + n > Len(d) THEN [ok |-> FALSE, cur |-> c, val |-> <<>>]
   ELSE [ok |-> TRUE, cur |-> c + n, val |-> SubSeqFrom(d, c + 1, c + n)]
@@ -140,6 +176,7 @@ Results(d, c, ord, o) ==
     [] o.op = "lpstr"     -> {LpStr(d, c)}
     [] o.op = "utf16"     -> U16Str(d, c, o.o)
     [] o.op = "chunk"     -> {Chunk(d, c, o.n)}
+    [] o.op = "u2str"     -> {U2Str(d, c)}
     [] o.op = "remaining" -> {[ok |-> TRUE, cur |-> c, val |-> <<Rem(d, c)>>]}
 
 InDomain(d, c, o) == o.op = "lpstr" => LpDomain(d, c)
@@ -197,4 +234,13 @@ StringConsumes ==
             \/ r.cur = cursor + Len(r.val) + 1 /\ data[r.cur] = o.dl
   IN ForAllResults(P)
 
+
+\* the Unreal 2 string read consumes exactly the bytes its length byte announces (plus the uncounted stray 01)
+U2Consumes ==
+  LET P(o, r) ==
+    (o.op = "u2str" /\ r.ok)
+      => LET L == data[cursor + 1] IN
+           IF L < 128 THEN r.cur = cursor + 1 + L
+           ELSE r.cur \in {cursor + 1 + 2 * (L - 128), cursor + 2 + 2 * (L - 128)}
+  IN ForAllResults(P)
 =============================================================================
